@@ -16,11 +16,13 @@ pub fn builtin_alias(name: &str) -> Option<Ty> {
     let conf = || Ty::tup(vec![u(1), u(256)]);
     Some(match name {
         "Amount1" | "TokenAmount1" => Ty::either(conf(), u(64)),
+        // the pinned book said u256 here; it is u64 (the explicit side of Amount1), see DESIGN 12.3
+        "ExplicitAmount" => u(64),
         "Asset1" | "Nonce" => Ty::either(conf(), u(256)),
         "Confidential1" | "Point" => conf(),
         "Ctx8" => Ty::tup(vec![Ty::list(u(8), 64), Ty::tup(vec![u(64), u(256)])]),
         "Distance" | "Duration" => u(16),
-        "ExplicitAmount" | "ExplicitAsset" | "ExplicitNonce" | "Fe" | "Message" | "Pubkey" | "Scalar" => u(256),
+        "ExplicitAsset" | "ExplicitNonce" | "Fe" | "Message" | "Pubkey" | "Scalar" => u(256),
         "Ge" => Ty::tup(vec![u(256), u(256)]),
         "Gej" => Ty::tup(vec![Ty::tup(vec![u(256), u(256)]), u(256)]),
         "Height" | "Lock" | "Time" => u(32),
